@@ -1,31 +1,33 @@
 #!/bin/bash
 # usage: tools/run_mutants.sh Cxx [N...]   -- runs ./check Cxx against each seeded mutant /verif/seeded/Cxx-N (copied from /tmp/mut-out/Cxx/N if absent)
 P=$1; shift
+MUTROOT=${MUTROOT:-/tmp/mut-out}
+TAG=${TAG:-}
 cd /verif
 NS="$@"
-if [ -z "$NS" ]; then NS=$(ls /tmp/mut-out/$P 2>/dev/null | grep -E '^[0-9]+$'); fi
+if [ -z "$NS" ]; then NS=$(ls $MUTROOT/$P 2>/dev/null | grep -E '^[0-9]+$'); fi
 WT=/tmp/wt-mut-$P
 git -C /repo worktree remove --force $WT 2>/dev/null
 git -C /repo worktree add --detach $WT HEAD >/dev/null 2>&1
 for N in $NS; do
-  D=/verif/seeded/$P-$N
-  if [ ! -d $D ]; then mkdir -p $D; cp /tmp/mut-out/$P/$N/* $D/ 2>/dev/null; fi
-  (cd $WT && git checkout -q -- . && git clean -fdq && git apply $D/patch.diff) || { echo "$P-$N PATCH-APPLY-FAILED" | tee $D/check_result.txt; continue; }
+  D=/verif/seeded/$P-$TAG$N
+  if [ ! -d $D ]; then mkdir -p $D; cp $MUTROOT/$P/$N/* $D/ 2>/dev/null; fi
+  (cd $WT && git checkout -q -- . && git clean -fdq && git apply $D/patch.diff) || { echo "$P-$TAG$N PATCH-APPLY-FAILED" | tee $D/check_result.txt; continue; }
   rm -f replays/$P-*.json
   t0=$(date +%s)
-  VERIF_REPO=$WT timeout 3000 ./check $P --tier quick > .cache/tmp/mut-$P-$N.log 2>&1
+  VERIF_REPO=$WT timeout 3000 ./check $P --tier quick > .cache/tmp/mut-$P-$TAG$N.log 2>&1
   rc=$?
   t1=$(date +%s)
   {
     echo "check: VERIF_REPO=<worktree of /repo $(git -C /repo rev-parse --short HEAD) + patch.diff> ./check $P --tier quick ; exit=$rc ; wall=$((t1-t0))s"
-    grep -E "^VIOLATION|^KNOWN-FINDING" .cache/tmp/mut-$P-$N.log
+    grep -E "^VIOLATION|^KNOWN-FINDING" .cache/tmp/mut-$P-$TAG$N.log
     python3 - <<PY
 import json,glob
 for f in sorted(glob.glob('/verif/replays/$P-*.json')):
     r=json.load(open(f)); print('  what:', r.get('what','')[:300], '| failing_input_found:', r.get('failing_input_found'))
 PY
   } > $D/check_result.txt
-  echo "== $P-$N rc=$rc"; cat $D/check_result.txt | head -8
+  echo "== $P-$TAG$N rc=$rc"; cat $D/check_result.txt | head -8
   rm -f replays/$P-*.json
 done
 git -C /repo worktree remove --force $WT
